@@ -553,17 +553,25 @@ class Frame:
         if isinstance(node, ast.Attribute) and isinstance(node.value, ast.Name):
             b = self.env.get(node.value.id)
             return b is not None and b[0] == 'obj'
-        if isinstance(node, ast.Subscript) and self.is_place(node.value) and isinstance(node.slice, ast.Constant) \
-                and isinstance(node.slice.value, int) and not isinstance(node.slice.value, bool):
+        if isinstance(node, ast.Subscript) and isinstance(node.slice, (ast.Constant, ast.Name)) and self.is_place(node.value):
+            i = self._const_index(node.slice)
+            if i is None:
+                return False
             b = self.place_get(node.value)       # element of a literal list held in a place
-            return b[0] == 'list' and -len(b[1]) <= node.slice.value < len(b[1])
+            return b[0] == 'list' and -len(b[1]) <= i < len(b[1])
         return False
+
+    def _const_index(self, sl):
+        t = self.ex(sl) if isinstance(sl, ast.Name) and sl.id in self.env else self.ex(sl) if isinstance(sl, ast.Constant) else None
+        if t is not None and T.isconst(t) and isinstance(t[1], int) and not isinstance(t[1], bool):
+            return t[1]
+        return None
 
     def place_get(self, node):
         if isinstance(node, ast.Name):
             return self.env.get(node.id, ('opaque', node.id))
         if isinstance(node, ast.Subscript):
-            return self.place_get(node.value)[1][node.slice.value]
+            return self.place_get(node.value)[1][self._const_index(node.slice)]
         b = self.env[node.value.id]
         return self.ctx.heap[b[1]]['attrs'].get(node.attr, ('undefined', node.attr))
 
@@ -573,7 +581,7 @@ class Frame:
         elif isinstance(node, ast.Subscript):
             b = self.place_get(node.value)
             items = list(b[1])
-            items[node.slice.value] = new
+            items[self._const_index(node.slice)] = new
             self.place_set(node.value, ('list', tuple(items)))
         else:
             b = self.env[node.value.id]
